@@ -128,7 +128,15 @@ def run(mod, tier, seed, replay=None):
 
     ctx = dict(rng=rng, known=known, tier=tier)
     if hasattr(mod, "extra_stage"):
-        r = mod.extra_stage(rep, ctx)
+        try:
+            r = mod.extra_stage(rep, ctx)
+        except Exception as ex:
+            if not regen_fail:
+                raise
+            # the model could not be regenerated from this tree (reported below as a broken tie): the oracle stage has no
+            # signatures to generate cases from
+            rep.notes.append("oracle stage skipped after failed regeneration: %r" % (ex,))
+            r = None
         if r:
             evaluations += r.get("evaluations", 0)
             for s in r.get("distinct", []):
